@@ -14,6 +14,8 @@
 //                                              piece sequences, booster::locale::format); judged on the concatenation
 //   codec_drv ranges <shard> <nshards>         every (begin,end) entry point on sub-ranges of larger buffers with adversarial
 //                                              neighbours and next to inaccessible pages, against the std::string forms on a copy
+//   codec_drv widgets <shard> <nshards>        every form widget rendered with a placeholder and with markup / injection strings in
+//                                              each escaped slot, all html/xhtml x as_p/as_table/as_ul/as_dl/as_space modes
 //   codec_drv urlsb                              util::urlencode(begin,end,streambuf&) into truncating sinks
 //   codec_drv big <n> <maxlen>                 a few long random strings
 // One "Call" event per input: the results of all functions, grouped by identical outcome.  The driver
@@ -25,8 +27,10 @@
 #include <cppcms/form.h>
 #include <booster/locale/format.h>
 #include <sstream>
+#include <memory>
 #include <iostream>
 #include <map>
+#include <functional>
 #include <set>
 #include <signal.h>
 #include <unistd.h>
@@ -786,6 +790,153 @@ static int do_ranges(int shard,int nshards)
 	return 0;
 }
 
+// ------------------------------------------------------------------ form widget rendering
+// Every widget that writes caller-supplied strings into HTML is rendered (base_widget::render: label, error
+// message, input, help; html / xhtml; as_p / as_table / as_ul / as_dl / as_space) once with a placeholder in one
+// slot and once with each test string in that slot.  TLC demands   rendering = Template[placeholder := X]   with
+// X an acceptable escaping of the string (mechanism layer: X = Escape(string)).
+// Slots driven (the ones the framework escapes): message, help, error_message (std::string and locale::message),
+// the value of text / password / hidden / textarea / email / regex_field, checkbox identification, submit value,
+// option captions and option ids of select / select_multiple / radio through all four add() overloads.
+// Raw by design and therefore not driven: id(), name(), attributes_string() (written verbatim; they are HTML
+// identifiers / markup supplied by the programmer), numeric values (digits).
+typedef std::function<void(cppcms::widgets::base_widget &,std::string const &)> slot_setter;
+struct wcase {
+	std::string widget, slot;
+	std::function<cppcms::widgets::base_widget *()> make;
+	slot_setter set;
+};
+
+static std::string render_widget(wcase const &c,std::string const &s,int html,int list,bool with_id)
+{
+	using namespace cppcms;
+	std::unique_ptr<widgets::base_widget> w(c.make());
+	w->name("n1");
+	if(with_id) w->id("i1");
+	c.set(*w,s);
+	std::ostringstream os;
+	form_context fc(os,form_flags::html_type(html),form_flags::html_list_type(list));
+	w->render(fc);
+	return os.str();
+}
+
+template<typename W> static cppcms::widgets::base_widget *mk() { return new W(); }
+static cppcms::widgets::base_widget *mk_regex() { return new cppcms::widgets::regex_field(".*"); }
+static cppcms::widgets::base_widget *mk_select_sel() { cppcms::widgets::select *w=new cppcms::widgets::select(); w->add("first","f"); w->selected_id("f"); return w; }
+static cppcms::widgets::base_widget *mk_radio_v() { cppcms::widgets::radio *w=new cppcms::widgets::radio(); w->vertical(true); w->add("first","f"); return w; }
+static cppcms::widgets::base_widget *mk_radio_h() { cppcms::widgets::radio *w=new cppcms::widgets::radio(); w->vertical(false); w->add("first","f"); w->selected_id("f"); return w; }
+static cppcms::widgets::base_widget *mk_selm() { cppcms::widgets::select_multiple *w=new cppcms::widgets::select_multiple(); w->add("first","f",true); return w; }
+
+template<typename W> static void add_value_slot(std::vector<wcase> &cs,char const *name,cppcms::widgets::base_widget *(*make)())
+{
+	wcase c; c.widget=name; c.slot="value"; c.make=make;
+	c.set=[](cppcms::widgets::base_widget &w,std::string const &s){ dynamic_cast<W&>(w).value(s); w.message("Label"); };
+	cs.push_back(c);
+}
+
+template<typename W> static void add_option_slots(std::vector<wcase> &cs,char const *name,cppcms::widgets::base_widget *(*make)())
+{
+	using cppcms::locale::message;
+	struct { char const *slot; slot_setter set; } const v[]={
+		{"add(string):caption",      [](cppcms::widgets::base_widget &w,std::string const &s){ dynamic_cast<W&>(w).add(s); }},
+		{"add(string,id):caption",   [](cppcms::widgets::base_widget &w,std::string const &s){ dynamic_cast<W&>(w).add(s,std::string("k")); }},
+		{"add(string,id):id",        [](cppcms::widgets::base_widget &w,std::string const &s){ dynamic_cast<W&>(w).add(std::string("Caption"),s); }},
+		{"add(message):caption",     [](cppcms::widgets::base_widget &w,std::string const &s){ dynamic_cast<W&>(w).add(message(s)); }},
+		{"add(message,id):caption",  [](cppcms::widgets::base_widget &w,std::string const &s){ dynamic_cast<W&>(w).add(message(s),std::string("k")); }},
+		{"add(message,id):id",       [](cppcms::widgets::base_widget &w,std::string const &s){ dynamic_cast<W&>(w).add(message("Caption"),s); }},
+	};
+	for(size_t i=0;i<sizeof(v)/sizeof(v[0]);i++) { wcase c; c.widget=name; c.slot=v[i].slot; c.make=make; c.set=v[i].set; cs.push_back(c); }
+}
+
+static void add_common_slots(std::vector<wcase> &cs,char const *name,cppcms::widgets::base_widget *(*make)())
+{
+	using cppcms::locale::message;
+	struct { char const *slot; slot_setter set; } const v[]={
+		{"message(string)",       [](cppcms::widgets::base_widget &w,std::string const &s){ w.message(s); }},
+		{"message(message)",      [](cppcms::widgets::base_widget &w,std::string const &s){ w.message(message(s)); w.help("Help"); }},
+		{"help(string)",          [](cppcms::widgets::base_widget &w,std::string const &s){ w.help(s); w.message("Label"); }},
+		{"help(message)",         [](cppcms::widgets::base_widget &w,std::string const &s){ w.help(message(s)); }},
+		{"error_message(string)", [](cppcms::widgets::base_widget &w,std::string const &s){ w.error_message(s); w.valid(false); w.message("Label"); }},
+		{"error_message(message)",[](cppcms::widgets::base_widget &w,std::string const &s){ w.error_message(message(s)); w.valid(false); }},
+	};
+	for(size_t i=0;i<sizeof(v)/sizeof(v[0]);i++) { wcase c; c.widget=name; c.slot=v[i].slot; c.make=make; c.set=v[i].set; cs.push_back(c); }
+}
+
+static int do_widgets(int shard,int nshards)
+{
+	using namespace cppcms;
+	bool thorough = std::string(getenv("VERIF_TIER")?getenv("VERIF_TIER"):"quick")=="thorough";
+	std::vector<wcase> cs;
+	add_value_slot<widgets::text>(cs,"text",&mk<widgets::text>);
+	add_value_slot<widgets::password>(cs,"password",&mk<widgets::password>);
+	add_value_slot<widgets::hidden>(cs,"hidden",&mk<widgets::hidden>);
+	add_value_slot<widgets::textarea>(cs,"textarea",&mk<widgets::textarea>);
+	add_value_slot<widgets::email>(cs,"email",&mk<widgets::email>);
+	add_value_slot<widgets::regex_field>(cs,"regex_field",&mk_regex);
+	{ wcase c; c.widget="checkbox"; c.slot="identification"; c.make=&mk<widgets::checkbox>;
+	  c.set=[](widgets::base_widget &w,std::string const &s){ dynamic_cast<widgets::checkbox&>(w).identification(s); dynamic_cast<widgets::checkbox&>(w).value(true); }; cs.push_back(c); }
+	{ wcase c; c.widget="submit"; c.slot="value(string)"; c.make=&mk<widgets::submit>;
+	  c.set=[](widgets::base_widget &w,std::string const &s){ dynamic_cast<widgets::submit&>(w).value(s); }; cs.push_back(c); }
+	{ wcase c; c.widget="submit"; c.slot="value(message)"; c.make=&mk<widgets::submit>;
+	  c.set=[](widgets::base_widget &w,std::string const &s){ dynamic_cast<widgets::submit&>(w).value(locale::message(s)); }; cs.push_back(c); }
+	add_option_slots<widgets::select>(cs,"select",&mk<widgets::select>);
+	add_option_slots<widgets::select>(cs,"select(selected)",&mk_select_sel);
+	add_option_slots<widgets::select_multiple>(cs,"select_multiple",&mk<widgets::select_multiple>);
+	add_option_slots<widgets::select_multiple>(cs,"select_multiple(selected)",&mk_selm);
+	add_option_slots<widgets::radio>(cs,"radio(vertical)",&mk_radio_v);
+	add_option_slots<widgets::radio>(cs,"radio(horizontal)",&mk_radio_h);
+	add_common_slots(cs,"text",&mk<widgets::text>);
+	add_common_slots(cs,"password",&mk<widgets::password>);
+	add_common_slots(cs,"textarea",&mk<widgets::textarea>);
+	// (widgets::hidden renders the bare input only: no label, help or error message)
+	add_common_slots(cs,"numeric<int>",&mk<widgets::numeric<int> >);
+	add_common_slots(cs,"checkbox",&mk<widgets::checkbox>);
+	add_common_slots(cs,"email",&mk<widgets::email>);
+	add_common_slots(cs,"regex_field",&mk_regex);
+	add_common_slots(cs,"file",&mk<widgets::file>);
+	add_common_slots(cs,"submit",&mk<widgets::submit>);
+	add_common_slots(cs,"select",&mk_select_sel);
+	add_common_slots(cs,"select_multiple",&mk_selm);
+	add_common_slots(cs,"radio",&mk_radio_v);
+
+	// every string of length 1..2 over the markup characters, injection strings, ordinary text
+	std::vector<std::string> strs;
+	static char const mk5[]="<>&\"'";
+	for(int a=0;a<5;a++) strs.push_back(std::string(1,mk5[a]));
+	for(int a=0;a<5;a++) for(int b=0;b<5;b++) { std::string t; t+=mk5[a]; t+=mk5[b]; strs.push_back(t); }
+	static char const *extra[]={"</option></select><script>alert(1)</script>","\" onmouseover=\"alert(1)","' onfocus='x","</textarea><b>","a&amp;b","&#39;&lt;",
+		"plain text","Tom & Jerry <3","x"};   // (ASCII only: locale::message keys are US-ASCII, other bytes are dropped by booster)
+	for(size_t i=0;i<sizeof(extra)/sizeof(extra[0]);i++) strs.push_back(extra[i]);
+	static const std::string ph="QZJXKVPLH";
+	static char const *hname[]={"html","xhtml"};
+	static char const *lname[]={"as_p","as_table","as_ul","as_dl","as_space"};
+
+	unsigned long idx=0;
+	for(size_t ci=0;ci<cs.size();ci++) {
+		wcase const &c=cs[ci];
+		bool common = c.slot.find("message")==0 || c.slot.find("help")==0 || c.slot.find("error_message")==0;
+		for(int html=0;html<2;html++) for(int list=0;list<5;list++) {
+			// quick tier: the slots of the shared base_widget::render in two of the ten modes per case (all ten over the cases)
+			// (and the option slots of the pre-selected / horizontal variants likewise)
+			bool variant = c.widget.find("(selected)")!=std::string::npos || c.widget.find("(horizontal)")!=std::string::npos;
+			if(!thorough && (common || variant) && (int)((ci+html*5+list)%5)!=0) continue;
+			if((int)(idx++%nshards)!=shard) continue;
+			bool with_id = (ci+list)%2==0;
+			std::string tmpl=render_widget(c,ph,html,list,with_id);
+			std::string cases="[";
+			for(size_t k=0;k<strs.size();k++) {
+				if(k) cases+=',';
+				cases+=vt::J().bytes("in",strs[k]).bytes("out",render_widget(c,strs[k],html,list,with_id)).str();
+			}
+			cases+="]";
+			reset_every(20,"widgets");
+			tr.line(vt::J().s("e","Widget").s("w",c.widget).s("slot",c.slot).s("html",hname[html]).s("list",lname[list]).b("id",with_id)
+				.bytes("ph",ph).bytes("tmpl",tmpl).raw("cases",cases).str());
+		}
+	}
+	return 0;
+}
+
 static int do_urlsb()
 {
 	// util::urlencode(begin,end,streambuf&) into a sink that accepts only `cap` characters;
@@ -816,6 +967,7 @@ int main(int argc,char **argv)
 	else if(m=="rows" && argc>=5) rc=do_rows(atoi(argv[2]),atoi(argv[3]),std::string(argv[4])=="b64");
 	else if(m=="ptr1mod4") rc=do_ptr1mod4();
 	else if(m=="urlsb") rc=do_urlsb();
+	else if(m=="widgets" && argc>=4) rc=do_widgets(atoi(argv[2]),atoi(argv[3]));
 	else if(m=="ranges" && argc>=4) rc=do_ranges(atoi(argv[2]),atoi(argv[3]));
 	else if(m=="pieces" && argc>=4) rc=do_pieces(atoi(argv[2]),atoi(argv[3]));
 	tr.close();
